@@ -17,7 +17,7 @@ static PAIRS: crate::engine::PairTable = crate::engine::PairTable::new(&["pollut
 
 const RATIOS: [f64; 11] = [0.0, 1e-3, 0.01, 0.1, 0.25, 1.0 / 3.0, 0.5, 0.9, 1.0, 1.5, f64::INFINITY];
 const VELS: [f64; 6] = [0.1, 0.5, 1.0, 1.4, 3.6, 10.0];
-const TOTALS: [f64; 5] = [50.0, 100.0, 333.3, 1000.0, 2e5];
+const TOTALS: [f64; 6] = [50.0, 100.0, 333.3, 1000.0, 2e5, 0.0];
 const STARTS: [f64; 2] = [0.0, 123_456.789];
 
 fn grid_count() -> u64 {
@@ -32,7 +32,7 @@ fn admissible(p: &Params) -> bool {
     // bounded work: at most 20k ticks per span; playable ranges only
     let len = p.total.min(100_000.0);
     let td = p.tick_dist.clamp(0.0, len.max(0.0));
-    p.start.is_finite() && p.dur.is_finite() && p.dur > 0.0 && p.vel.is_finite() && p.vel > 0.0 && p.total.is_finite() && p.total > 0.0 && !p.tick_dist.is_nan() && p.tick_dist >= 0.0 && (td == 0.0 || len / td <= 20_000.0) && p.spans >= 1 && f64::from(p.spans) * (if td == 0.0 { 1.0 } else { (len / td).max(1.0) }) <= 300_000.0
+    p.start.is_finite() && p.dur.is_finite() && p.dur > 0.0 && p.vel.is_finite() && p.vel > 0.0 && p.total.is_finite() && p.total >= 0.0 && !p.tick_dist.is_nan() && p.tick_dist >= 0.0 && (td == 0.0 || len / td <= 20_000.0) && p.spans >= 1 && f64::from(p.spans) * (if td == 0.0 { 1.0 } else { (len / td).max(1.0) }) <= 300_000.0
 }
 
 fn gen_params(rng: &mut Rng) -> [f64; 6] {
@@ -43,11 +43,11 @@ fn gen_params(rng: &mut Rng) -> [f64; 6] {
     } else {
         1 + rng.below(6)
     } as f64;
-    let total = *rng.pick(&[50.0, 100.0, 1000.0, 333.3, 1e5, 2e5, 0.5]) * (0.5 + rng.unit());
+    let total = *rng.pick(&[50.0, 100.0, 1000.0, 333.3, 1e5, 2e5, 0.5, 150_000.0, 0.0]) * (0.5 + rng.unit());
     let ratio = *rng.pick(&RATIOS);
     let td = if ratio == 0.0 || ratio.is_infinite() { ratio } else { ratio * total * (0.9 + 0.2 * rng.unit()) };
     let vel = *rng.pick(&VELS) * (0.5 + rng.unit());
-    let dur = total / vel * (0.9 + 0.2 * rng.unit());
+    let dur = if total > 0.0 { total / vel * (0.9 + 0.2 * rng.unit()) } else { 1.0 + 100.0 * rng.unit() };
     let start = *rng.pick(&[0.0, 1000.0, -500.0, 123_456.789]);
     [start, dur, vel, td, total, spans]
 }
@@ -60,7 +60,7 @@ impl Scenario for C20 {
         "exploration"
     }
     fn rule(&self) -> String {
-        "Histories of iterators sharing one tick buffer: ops {pollute the buffer with n foreign events, construct an iterator and abandon it after j events, construct and run to completion}. (1) a grid span counts 1..6 x 11 tick-distance/length ratios (incl. 0, tiny, > 1, inf) x 6 velocities x 5 lengths (incl. beyond MAX_LEN) x 2 start times, each run on a polluted buffer — enumerated; (2) seeded histories of 1..8 ops with real-valued parameters in playable ranges, occasionally hundreds / 9001 spans. Every completed stream: eager reference from the statement (structure exact, numbers within 1e-9 relative, tick-count boundary tolerance-aware), chronological ticks, identical tick placement on every span, bit-identical to the stream from a fresh buffer, zero tick distance => no ticks but every repeat. distinct_nontrivial = distinct plan hashes containing a run preceded by pollution or an abandoned iterator.".into()
+        "Histories of iterators sharing one tick buffer: ops {pollute the buffer with n foreign events, construct an iterator and abandon it after j events, construct and run to completion}. (1) a grid span counts 1..6 x 11 tick-distance/length ratios (incl. 0, tiny, > 1, inf) x 6 velocities x 6 lengths (incl. zero and beyond MAX_LEN) x 2 start times, each run on a polluted buffer — enumerated; (2) seeded histories of 1..8 ops with real-valued parameters in playable ranges, occasionally hundreds / 9001 spans. Every completed stream: eager reference from the statement (structure exact, numbers within 1e-9 relative, tick-count boundary tolerance-aware), chronological ticks, identical tick placement on every span, bit-identical to the stream from a fresh buffer, zero tick distance => no ticks but every repeat. distinct_nontrivial = distinct plan hashes containing a run preceded by pollution or an abandoned iterator.".into()
     }
     fn assumptions(&self) -> Vec<String> {
         vec![
@@ -93,7 +93,8 @@ impl Scenario for C20 {
             let td = if ratio == 0.0 || ratio.is_infinite() { ratio } else { ratio * total.min(100_000.0) };
             let mut p = Plan::new("C20", "grid", seed, idx);
             p.ops.push(Op::new("pollute", &[3.0]));
-            p.ops.push(Op::new("run", &[start, total / vel, vel, td, total, spans as f64]));
+            let dur = if total > 0.0 { total / vel } else { 40.0 / vel };
+            p.ops.push(Op::new("run", &[start, dur, vel, td, total, spans as f64]));
             return p;
         }
         let mut rng = Rng::for_run(seed, "C20", idx);
